@@ -5,9 +5,12 @@
    size of the result array events_; PollPoller: channels_, pollfds_.
    A failed assert on a documented precondition of the Channel API is [Rejected]; a failed internal
    assertion, an out-of-bounds vector access, a null dereference or a LOG_SYSFATAL is [Fault].
-   [ri] (second argument of the poll back-end) says whether PollPoller::removeChannel resets the
-   channel's index to -1; the value for the current tree is regenerated from the AST
-   (Gen_C09.PollPoller_remove_resets_index).
+   Three booleans select the shape of the code; their values for the current tree are regenerated
+   from the AST (Gen_C09) and instantiated in ep_step_current / pp_step_current:
+   [ri]  PollPoller::removeChannel resets the channel's index to -1           (finding F-1, fixed bbde8b0)
+   [se]  EPollPoller::updateChannel only records (kDeleted) a channel whose interest is empty instead of
+         EPOLL_CTL_ADDing it                                                    (finding F-14, fixed a5a0563)
+   [ne]  PollPoller::updateChannel's new-entry branch stores -fd-1 for an empty interest      (same)
    No proofs in this file. *)
 From Coq Require Import List ZArith NArith Lia Bool Arith.
 From Muduo Require Import Gen_Consts Gen_C09.
@@ -134,8 +137,8 @@ Definition ep_ctl (o : ctl) (c : nat) (ch : chan) (st : ep) : res ep :=
   | CtlDel, None => Ok (mkEp (e_objs st) (e_map st) (e_kern st) (e_cap st) (S (e_kerr st)))
   end.
 
-(* EPollPoller::updateChannel, EPollPoller.cc:107-149 *)
-Definition ep_updateChannel (c : nat) (st : ep) : res ep :=
+(* EPollPoller::updateChannel, EPollPoller.cc:107-157 *)
+Definition ep_updateChannel (se : bool) (c : nat) (st : ep) : res ep :=
   match e_objs st c with
   | None => Rejected
   | Some ch =>
@@ -151,8 +154,12 @@ Definition ep_updateChannel (c : nat) (st : ep) : res ep :=
                 | Some c' => if Nat.eqb c' c then Ok st else Fault
                 | None => Fault
                 end) ;;
-      let ch' := set_index ch kAdded in
-      ep_ctl CtlAdd c ch' (ep_set_objs st1 (upd (e_objs st1) c (Some ch')))
+      if se && isNone ch then
+        (* nothing to watch: known to the poller (channels_), not in the epoll set *)
+        Ok (ep_set_objs st1 (upd (e_objs st1) c (Some (set_index ch kDeleted))))
+      else
+        let ch' := set_index ch kAdded in
+        ep_ctl CtlAdd c ch' (ep_set_objs st1 (upd (e_objs st1) c (Some ch')))
     else
       match e_map st f with
       | Some c' =>
@@ -225,7 +232,7 @@ Definition ep_poll (ready : nat -> N) (choice : list nat) (st : ep) : res (ep * 
     Ok (mkEp (e_objs st) (e_map st) (e_kern st) cap' (e_kerr st), act)
   else Fault.
 
-Definition ep_step (st : ep) (o : op) : res (ep * active) :=
+Definition ep_step (se : bool) (st : ep) (o : op) : res (ep * active) :=
   match o with
   | New c f =>
       match e_objs st c with
@@ -242,12 +249,15 @@ Definition ep_step (st : ep) (o : op) : res (ep * active) :=
       match e_objs st c with
       | Some ch =>
           let ch' := mkChan (fd ch) (apply_uop u (events ch)) (index ch) true in
-          st' <- ep_updateChannel c (ep_set_objs st (upd (e_objs st) c (Some ch'))) ;; Ok (st', [])
+          st' <- ep_updateChannel se c (ep_set_objs st (upd (e_objs st) c (Some ch'))) ;; Ok (st', [])
       | None => Rejected
       end
   | Remove c => st' <- ep_removeChannel c st ;; Ok (st', [])
   | Poll ready choice => ep_poll ready choice st
   end.
+
+(* the epoll back-end of the tree as it is now *)
+Definition ep_step_current := ep_step Gen_C09.EPollPoller_add_skips_empty_interest.
 
 (* ---- POLL back-end -------------------------------------------------------------------------- *)
 Record pfd := mkPfd { p_fd : Z; p_ev : N }.      (* struct pollfd without revents *)
@@ -266,8 +276,8 @@ Fixpoint set_nth {A} (i : nat) (x : A) (l : list A) : list A :=
   | y :: t => match i with 0 => x :: t | S j => y :: set_nth j x t end
   end.
 
-(* PollPoller::updateChannel, PollPoller.cc:75-110 *)
-Definition pp_updateChannel (c : nat) (st : pp) : res pp :=
+(* PollPoller::updateChannel, PollPoller.cc:75-115 *)
+Definition pp_updateChannel (ne : bool) (c : nat) (st : pp) : res pp :=
   match p_objs st c with
   | None => Rejected
   | Some ch =>
@@ -279,7 +289,7 @@ Definition pp_updateChannel (c : nat) (st : pp) : res pp :=
           let idx := Z.of_nat (length (p_pfds st)) in
           Ok (mkPp (upd (p_objs st) c (Some (set_index ch idx)))
                    (upd (p_map st) f (Some c))
-                   (p_pfds st ++ [mkPfd (Z.of_nat f) (events ch)]))
+                   (p_pfds st ++ [mkPfd (if ne && isNone ch then neg_fd f else Z.of_nat f) (events ch)]))
       end
     else
       match p_map st f with
@@ -366,7 +376,7 @@ Fixpoint pp_fill (st : pp) (ready : nat -> N) (l : list pfd) : res active :=
         end
   end.
 
-Definition pp_step (ri : bool) (st : pp) (o : op) : res (pp * active) :=
+Definition pp_step (ri ne : bool) (st : pp) (o : op) : res (pp * active) :=
   match o with
   | New c f =>
       match p_objs st c with
@@ -383,7 +393,7 @@ Definition pp_step (ri : bool) (st : pp) (o : op) : res (pp * active) :=
       match p_objs st c with
       | Some ch =>
           let ch' := mkChan (fd ch) (apply_uop u (events ch)) (index ch) true in
-          st' <- pp_updateChannel c (mkPp (upd (p_objs st) c (Some ch')) (p_map st) (p_pfds st)) ;; Ok (st', [])
+          st' <- pp_updateChannel ne c (mkPp (upd (p_objs st) c (Some ch')) (p_map st) (p_pfds st)) ;; Ok (st', [])
       | None => Rejected
       end
   | Remove c => st' <- pp_removeChannel ri c st ;; Ok (st', [])
@@ -391,21 +401,24 @@ Definition pp_step (ri : bool) (st : pp) (o : op) : res (pp * active) :=
   end.
 
 (* the poll back-end of the tree as it is now *)
-Definition pp_step_current := pp_step Gen_C09.PollPoller_remove_resets_index.
+Definition pp_step_current :=
+  pp_step Gen_C09.PollPoller_remove_resets_index Gen_C09.PollPoller_new_entry_negates_empty.
 
 (* ---- runs ------------------------------------------------------------------------------------ *)
-Fixpoint ep_run (st : ep) (ops : list op) : res (ep * list active) :=
+Fixpoint ep_run (se : bool) (st : ep) (ops : list op) : res (ep * list active) :=
   match ops with
   | [] => Ok (st, [])
-  | o :: t => r <- ep_step st o ;; r' <- ep_run (fst r) t ;; Ok (fst r', snd r :: snd r')
+  | o :: t => r <- ep_step se st o ;; r' <- ep_run se (fst r) t ;; Ok (fst r', snd r :: snd r')
   end.
-Fixpoint pp_run (ri : bool) (st : pp) (ops : list op) : res (pp * list active) :=
+Fixpoint pp_run (ri ne : bool) (st : pp) (ops : list op) : res (pp * list active) :=
   match ops with
   | [] => Ok (st, [])
-  | o :: t => r <- pp_step ri st o ;; r' <- pp_run ri (fst r) t ;; Ok (fst r', snd r :: snd r')
+  | o :: t => r <- pp_step ri ne st o ;; r' <- pp_run ri ne (fst r) t ;; Ok (fst r', snd r :: snd r')
   end.
+Definition ep_run_current := ep_run Gen_C09.EPollPoller_add_skips_empty_interest.
 
-Definition pp_run_current := pp_run Gen_C09.PollPoller_remove_resets_index.
+Definition pp_run_current :=
+  pp_run Gen_C09.PollPoller_remove_resets_index Gen_C09.PollPoller_new_entry_negates_empty.
 
 (* ---- abstract specification: the interest map  Channel object -> subscribed conditions -------- *)
 Record sch := mkSch {
@@ -446,8 +459,9 @@ Definition sguard (sp : spec) (o : op) : Prop :=
   | Poll _ _ => True
   end.
 
-(* extra hypothesis 1 (findings F-14): no update that leaves the interest empty is applied to a
-   channel whose interest is already empty or that is not registered ("redundant disable") *)
+(* extra hypothesis 1 (finding F-14, needed only for the OLD shapes se = false / ne = false): no update
+   that leaves the interest empty is applied to a channel whose interest is already empty or that is
+   not registered ("redundant disable") *)
 Definition sclean (sp : spec) (o : op) : Prop :=
   match o with
   | Upd u c => forall s, sp c = Some s -> apply_uop u (s_ev s) = 0%N -> s_reg s = true /\ s_ev s <> 0%N
@@ -542,14 +556,14 @@ Definition loop_iter (h : handlers) (runs : nat -> bool) (st : S) (ready : nat -
   Ok (fst d, snd r, snd d).
 End LoopIter.
 
-Definition ep_loop_iter := loop_iter ep ep_step.
+Definition ep_loop_iter := loop_iter ep ep_step_current.
 Definition pp_loop_iter_current := loop_iter pp pp_step_current.
 
 (* the callbacks of one batch respect the preconditions (Channel API + the two loop asserts) *)
 Fixpoint cb_ops_ok (snap : list nat) (cur : nat) (sp : spec) (ops : list op) : Prop :=
   match ops with
   | [] => True
-  | o :: t => loop_guard snap cur o = true /\ sguard sp o /\ sclean sp o /\ cb_ops_ok snap cur (spec_step sp o) t
+  | o :: t => loop_guard snap cur o = true /\ sguard sp o /\ cb_ops_ok snap cur (spec_step sp o) t
   end.
 Fixpoint batch_ok (h : handlers) (snap : list nat) (sp : spec) (log : list (nat * cb)) : Prop :=
   match log with
